@@ -36,6 +36,15 @@ theorem u8_toNat (x : Nat) : (u8 x).toNat = x % 256 := by
 theorem u8_toNat_lt {x : Nat} (h : x < 256) : (u8 x).toNat = x := by
   rw [u8_toNat]; omega
 
+theorem fixOrders_of_lt {pat : Nat} {ords : Bytes} (h : ∀ x ∈ ords, x.toNat < pat) : fixOrders pat ords = ords := by
+  unfold fixOrders
+  cases ords with
+  | nil => simp
+  | cons a r =>
+    have := h a (by simp)
+    have hn : ¬ (a.toNat ≥ pat) := by omega
+    simp [hn]
+
 theorem rd16be_be16 {n : Nat} (h : n < 65536) : rd16be (be16 n) = n := by
   simp only [be16, rd16be, u8_toNat]; omega
 
@@ -593,7 +602,7 @@ theorem read_eq_some {bs name r1 hb r2 lr r3 ords r4 magic r5 r6 : Bytes} {mi : 
     (hpats : decPats mi.chn pat r5 = some (pats, r6))
     (hsmps : decSmps (hdrs.map hdrSmp) r6 = some smps) :
     read bs = some { name := adjustString (cstr name), chn := mi.chn,
-                     orders := ords.take (lr.getD 0 0).toNat, pats := pats,
+                     orders := fixOrders pat (ords.take (lr.getD 0 0).toNat), pats := pats,
                      ins := (List.range 31).zipWith hdrIns hdrs, smps := smps.map obsLoop,
                      spd := 6, bpm := 125 } := by
   unfold read
@@ -635,7 +644,7 @@ theorem sum_even (ms : List Smp) (h : ∀ m ∈ ms, m.len % 2 = 0) : (ms.map (·
 /-- whole-file round trip, all signature kinds -/
 theorem roundtrip (s : Module) (o : Opts) (h : WellFormed s o) (hA : NoAdpcm s.smps) :
     read (write s o) = some s := by
-  obtain ⟨hname, hchn, hkind, holen, hpc, hpats, hnins, hslots, hspd, hbpm⟩ := h
+  obtain ⟨hname, hchn, hkind, holen, hpc, hpats, hnins, hslots, hspd, hbpm, hoplay⟩ := h
   have hlen := slotsOk_length hslots
   obtain ⟨hml, hmk, det, san, hmi, hsan⟩ :=
     magic_table o.kind (List.mem_range.2 hkind) s.chn (List.mem_range.2 (by omega)) hchn.1
@@ -720,7 +729,8 @@ theorem roundtrip (s : Module) (o : Opts) (h : WellFormed s o) (hA : NoAdpcm s.s
   have e3 : List.zipWith hdrIns (List.range 31) (List.zipWith rawHdr s.ins s.smps) = s.ins := by
     have := zipWith_hdrIns hslots
     rwa [hnins, ← List.range_eq_range'] at this
-  rw [adjustString_cstr_padTo hname, e1, e2, e3, hobs]
+  have e4 : fixOrders s.pats.length s.orders = s.orders := fixOrders_of_lt hoplay
+  rw [adjustString_cstr_padTo hname, e1, e2, e3, hobs, e4]
   cases s
   simp_all
 
